@@ -311,6 +311,11 @@ def main_run(pid: str, tier: str, seed_val: int) -> int:
         print(f"HARNESS-ERROR {pid}: {e}\n{traceback.format_exc()}", file=sys.stderr)
         return 2
 
+    only = os.environ.get("VERIF_ONLY")
+    if only and os.environ.get("VERIF_EVIDENCE_DIR"):
+        # development aid (sensitivity runs with redirected evidence only): run a subset of the components
+        comps = {k: v for k, v in comps.items() if k in only.split(",")}
+
     known_seen = run_known(pid)
     regress_bad = run_fixed_regressions(pid)
 
@@ -341,9 +346,29 @@ def main_run(pid: str, tier: str, seed_val: int) -> int:
         for kind, a in jobs:
             fn = _enum_worker if kind == "enum" else _worker
             futs.append(pool.submit(fn, a))
-        for f in futs:
-            results.append(f.result(timeout=max(1.0, limit - (time.time() - t0))))
-        pool.shutdown(wait=True)
+        pending = set(futs)
+        first_failure_at = None
+        grace = float(os.environ.get("VERIF_GRACE") or 180)
+        while pending:
+            budget = limit - (time.time() - t0)
+            if first_failure_at is not None:
+                # a violation is already in hand: the other shards get a grace period to finish (a case on
+                # which the code under test does not terminate must not turn a found violation into "inconclusive")
+                budget = min(budget, grace - (time.time() - first_failure_at))
+            if budget <= 0:
+                if first_failure_at is None:
+                    raise cf.TimeoutError()
+                for proc in list(getattr(pool, "_processes", {}).values()):
+                    proc.kill()
+                print(f"note: {len(pending)} shard(s) still running {grace:.0f}s after a violation was found were stopped", file=sys.stderr)
+                break
+            done, pending = cf.wait(pending, timeout=min(budget, 5.0), return_when=cf.FIRST_COMPLETED)
+            for f in done:
+                r = f.result()
+                results.append(r)
+                if r.get("failure") is not None and first_failure_at is None:
+                    first_failure_at = time.time()
+        pool.shutdown(wait=not pending, cancel_futures=True)
     except cf.TimeoutError:
         # a time budget hit means "inconclusive", never a violation
         for proc in list(getattr(pool, "_processes", {}).values()):
